@@ -31,18 +31,12 @@ impl Target {
             Target::RsStub => "rs-stub",
         }
     }
-    pub fn from_name(s: &str) -> Option<Target> {
-        ALL_TARGETS.iter().copied().find(|t| t.name() == s)
-    }
     pub fn lang(self) -> Lang {
         match self {
             Target::Js | Target::Ts => Lang::Js,
             Target::Mo => Lang::Mo,
             _ => Lang::Rs,
         }
-    }
-    pub fn is_rust(self) -> bool {
-        self.lang() == Lang::Rs
     }
 }
 
